@@ -605,6 +605,11 @@ func PreprocessDeclarationsPrelude(baseURL string, declarations []pa.Compound, p
 			if err != nil {
 				return nil, err
 			}
+			// the declarations seen so far come before the nested rule in order of appearance
+			if len(ownDecls) != 0 {
+				out = append(out, KeyedDeclarations{selectors, ownDecls})
+				ownDecls = nil
+			}
 			out = append(out, contents...)
 		}
 
